@@ -27,7 +27,7 @@ type hostileCase struct {
 	Fault   string         `json:"reader_fault,omitempty"`
 }
 
-var allowChoices = [][]string{nil, nil, nil, {"secret"}, {"../secret"}, {"../sib"}, {"/etc"}, {"/etc/shadow"}, {"../{B}-evil"}}
+var allowChoices = [][]string{nil, nil, nil, {"secret"}, {"../secret"}, {"../sib"}, {"/etc"}, {"/etc/shadow"}, {"../{B}-evil"}, {"../../top-secret"}}
 
 func hostileArena(r *fw.Rand, withAllow bool) arenaSpec {
 	a := arenaVariants[r.Intn(len(arenaVariants))]
@@ -136,9 +136,10 @@ func runHostile(which string, hc hostileCase) fw.Result {
 
 // failingReader fails (or reports a clean EOF) once offset k is reached.
 type failingReader struct {
-	r    *bytes.Reader
-	left int
-	eof  bool
+	r       *bytes.Reader
+	left    int
+	eof     bool
+	wrapEOF bool // fail with an error that wraps io.EOF (not a clean end of stream)
 }
 
 var errInjected = errors.New("injected read fault")
@@ -147,6 +148,9 @@ func (f *failingReader) Read(p []byte) (int, error) {
 	if f.left <= 0 {
 		if f.eof {
 			return 0, io.EOF
+		}
+		if f.wrapEOF {
+			return 0, fmt.Errorf("injected read fault: connection reset: %w", io.EOF)
 		}
 		return 0, errInjected
 	}
